@@ -885,3 +885,27 @@ def edgeroles(seed, index):
     return "\n".join(L) + "\n", ([tag] if tag else [])
 
 N_EDGEROLES = len(BRANCHCALL_CONDS) * 2 * len(EDGEROLE_SHAPES)
+
+
+# per program ONE governed field (the exact oracle reads constants literally: a GroupIndex check next to a GroupSize check would
+# couple the two concretely - index < size - beyond the literal reading the property speaks of)
+TWOSITE_CHECKS = [["global GroupSize", "int 2", "=="], ["global GroupSize", "int 3", "<="], ["int 4", "global GroupSize", "!="],
+                  ["txn Fee", "int 1000", "<="], ["int 5000", "txn Fee", ">"], ["txn Fee", "int 700", "=="]]
+
+
+def twosite(seed, index):
+    """systematic family for the precision of the backward pass at call sites: ONE subroutine called from TWO sites, a direct check
+    (size / index / fee) right after the return of the first call only (or different checks after the two returns): the callsub block
+    of each site must carry what ITS OWN return point establishes, not the union over the callee's return points"""
+    r = random.Random(f"twosite/{seed}/{index}")
+    c1 = TWOSITE_CHECKS[index % len(TWOSITE_CHECKS)]
+    k = index // len(TWOSITE_CHECKS)
+    second = k % 3; k //= 3          # 0: no check after the second call, 1: a different check, 2: the same check
+    callee = k % 2
+    fam = [c for c in TWOSITE_CHECKS if ("Fee" in " ".join(c)) == ("Fee" in " ".join(c1)) and c != c1]
+    c2 = [] if second == 0 else ((r.choice(fam) if second == 1 else c1) + ["assert"])
+    L = ["#pragma version 8", "txn NumAppArgs", "bnz second", "callsub f"] + c1 + ["assert", "int 1", "return", "second:", "callsub f"] + c2 + ["int 1", "return", "f:"]
+    L += (["int 3", "pop"] if callee else []) + ["retsub"]
+    return "\n".join(L) + "\n"
+
+N_TWOSITE = len(TWOSITE_CHECKS) * 3 * 2
